@@ -109,7 +109,7 @@ func (m *model) Init(dir string) error {
 		if err := json.Unmarshal(meta, &im); err != nil {
 			return err
 		}
-		w, err := world.Open(dir, names, []string{remoteName}, nil)
+		w, err := world.Open(dir, []string{"A"}, nil, nil)
 		if err != nil {
 			return err
 		}
@@ -177,21 +177,23 @@ func (m *model) buildDisk(dir string, names []string) error {
 	if _, err := bug.Fetch(a, remoteName); err != nil {
 		return err
 	}
-	return nil
+	// from here on only A acts and nothing is fetched or pushed: B and R are dropped so that
+	// restoring the initial state for every execution copies one repository instead of three
+	w.Close()
+	for _, n := range []string{"B", remoteName} {
+		if err := os.RemoveAll(filepath.Join(dir, n)); err != nil {
+			return err
+		}
+	}
+	m.w, err = world.Open(dir, []string{"A"}, nil, nil)
+	return err
 }
 
 // remoteWork is what the other side did before the exploration starts.
 func remoteWork(repo repository.ClockedRepo, author identity.Interface, shared entity.Id) error {
-	for i := 0; i < 2; i++ {
-		b, err := bug.Read(repo, shared)
-		if err != nil {
-			return err
-		}
-		b.Append(bug.NewAddCommentOp(author, vtime.Now().Unix(), fmt.Sprintf("remote comment %d", i), nil))
-		if err := b.Commit(repo); err != nil {
-			return err
-		}
-	}
+	// The bugs of its own come first and the edits of the shared bug last, so that the shared bug
+	// carries the largest times of the remote state: the result of merging everything is then the
+	// same in whatever order the refs are merged (mockRepo lists refs in Go map order).
 	for i := 0; i < 2; i++ {
 		nb, _, err := bug.Create(author, vtime.Now().Unix(), fmt.Sprintf("remote bug %d", i), "remote message", nil, nil)
 		if err != nil {
@@ -201,6 +203,16 @@ func remoteWork(repo repository.ClockedRepo, author identity.Interface, shared e
 			nb.Append(bug.NewAddCommentOp(author, vtime.Now().Unix(), "second commit of the remote bug", nil))
 		}
 		if err := nb.Commit(repo); err != nil {
+			return err
+		}
+	}
+	for i := 0; i < 2; i++ {
+		b, err := bug.Read(repo, shared)
+		if err != nil {
+			return err
+		}
+		b.Append(bug.NewAddCommentOp(author, vtime.Now().Unix(), fmt.Sprintf("remote comment %d", i), nil))
+		if err := b.Commit(repo); err != nil {
 			return err
 		}
 	}
